@@ -286,6 +286,8 @@ func checkC08(ctx *Ctx, r *Report) {
 	c08ResolvesToConstraints(ctx, r)
 	c13NilTestExcludesConstantRefs(ctx, r, ts, recValidate.define)
 	c08StrictSkeleton(ctx, r, ts)
+	c08StrictElementNull(ctx, r, ts)
+	c12UnionWrapperClassified(ctx, r)
 	c08WholesaleLeafOnly(ctx, r)
 	c09OperatorTable(ctx, r)
 	c09BoundAgreement(ctx, r)
@@ -297,6 +299,7 @@ func checkC08(ctx *Ctx, r *Report) {
 	c01StrictDecoderNulls(ctx, r)
 	c08CueConstraintSiblings(ctx, r)
 	c09CueNumberConstraints(ctx, r)
+	c09CueConstraintsThroughReferences(ctx, r)
 	c08TypeListThroughWalkers(ctx, r)
 	c08UnionReuseComparesBranches(ctx, r)
 	c10CueEmptyCollectionDefault(ctx, r)
@@ -1654,4 +1657,38 @@ func c13NumericUnionBranches(ctx *Ctx, r *Report, ts *tmplSet) {
 	r.Count("templates deciding the branch, encoding and equality of scalar unions", examined)
 	r.Check(found != "", "skeleton/numeric-union-branches", "golang scalar union wrappers treat numeric branches", token.NoPos, "some template of the wrappers or of Equals looks at numeric kinds ("+found+")",
 		"neither the decoder, the encoder nor Equals of a union of scalars has any logic about numeric kinds: with `v: int | float`, {\"v\":1} is decoded into the Int64 branch and {\"v\":1.0} into the Float64 branch, both are encoded {\"v\":1}, and Equals — which compares branch by branch — says they differ")
+}
+
+// c08StrictElementNull: `null` is a value of an element of a list or map only when the element type is nullable. The
+// strict decoder tests `null` for the fields of a struct (required ∧ ¬nullable); for elements, the recursive template
+// "strict_unmarshal_field_type" must refuse a raw `null` whenever it is reached at depth > 1 for a type that is not
+// nullable — json.Unmarshal(null) is a silent no-op for every Go type, UnmarshalJSONStrict("null") returns nil. The rule
+// looks for that refusal: a conditional on the depth and on the non-nullability of the input type whose text compares
+// the raw input with "null" and reports an error. (The wholesale shortcuts for lists / maps of scalars skip the
+// elements altogether; they are only sound for nullable elements — same clause.)
+func c08StrictElementNull(ctx *Ctx, r *Report, ts *tmplSet) {
+	tree := ts.trees[recStrict.define]
+	if tree == nil {
+		r.Undecided("anchor lost: template %q", recStrict.define)
+		return
+	}
+	refuses := false
+	walkTmpl(tree.Root, func(n parse.Node) bool {
+		in, ok := n.(*parse.IfNode)
+		if !ok {
+			return true
+		}
+		cond := in.Pipe.String()
+		if !strings.Contains(cond, ".Depth") || !strings.Contains(cond, "not") || !strings.Contains(cond, "Nullable") {
+			return true
+		}
+		text := tmplText(in.List)
+		if strings.Contains(text, `"null"`) && strings.Contains(text, "errs = append") {
+			refuses = true
+		}
+		return true
+	})
+	r.Count("element-level null tests of the strict decoder template", 1)
+	r.Check(refuses, "skeleton/strict-element-null-rejected", "strict_unmarshal_field_type refuses null for non-nullable elements", token.NoPos, ts.file[recStrict.define]+": a raw `null` reached at depth > 1 for a non-nullable type is reported",
+		ts.file[recStrict.define]+": the null test only exists for the fields of a struct: `tags: [...string]` accepts [\"a\", null] (stored \"\"), `limits: [string]: int` accepts {\"cpu\": null} (stored 0), `opts: [...#Opt]` accepts [null] — documents the schema rejects")
 }
